@@ -304,6 +304,44 @@ def shard_combine(ctx: Ctx) -> None:
             ctx.violation("combine-accepts-different-transactions", "PSBTs of two different transactions were combined", case)
         elif not is_lib_exc(o[1]):
             ctx.violation(f"combine:foreign-exception:{type(o[1]).__name__}@{tb_origin(o[1])}", f"{o[1]!r}", case)
+        # ... and so must the nearest different transactions: one field of the unsigned transaction changed. For a
+        # version 0 psbt that includes an input's sequence (the txid commits to it; only BIP370's identifier is blind to it)
+        def edited(field):
+            # both versions keep the transaction as fields of the maps (version 0 writes it back as the global unsigned tx)
+            d = deepcopy(fl.created)
+            if field == "sequence":
+                if fl.psbt_version == 2:
+                    return None      # the same transaction for BIP370's identifier: judged above
+                d.inputs[0].sequence = (d.inputs[0].sequence if d.inputs[0].sequence is not None else 0xFFFFFFFF) ^ 2
+            elif field == "lock_time":
+                d.fallback_lock_time = (d.fallback_lock_time or 0) ^ 1
+                if fl.psbt_version == 2 and d.lock_time == fl.created.lock_time:
+                    return None      # an input's required lock time decides: the fallback is not part of the transaction
+            elif field == "version":
+                d.tx_version = 1 if d.tx_version != 1 else 2
+            elif field == "amount":
+                d.outputs[0].amount ^= 1
+            elif field == "vout":
+                d.inputs[0].output_index ^= 1
+            return d
+
+        for field in ("sequence", "lock_time", "version", "amount", "vout"):
+            eo = outcome(edited, field)
+            if eo[0] == "raise" or eo[1] is None:
+                continue
+            same = outcome(lambda: eo[1].tx.id == fl.created.tx.id)
+            if same[0] == "raise" or same[1]:
+                ctx.stat(f"combine:edit-not-applicable:{field}")
+                continue
+            for pair in ([fl.created, eo[1]], [eo[1], fl.created]):
+                o = outcome(combine, pair)
+                ctx.stats["combine:one-field-different-tx-refused"] += 1
+                ctx.stats[f"combine:one-field:{field}:v{fl.psbt_version}"] += 1
+                if o[0] == "ok":
+                    ctx.violation(f"combine-accepts-different-transactions:{field}-differs",
+                                  f"two version {fl.psbt_version} PSBTs whose unsigned transactions differ in {field} were combined", {**case, "field": field})
+                elif not is_lib_exc(o[1]):
+                    ctx.violation(f"combine:foreign-exception:{type(o[1]).__name__}@{tb_origin(o[1])}", f"{o[1]!r}", case)
         conv = outcome(lambda: fl.created.to_v2() if fl.psbt_version == 0 else fl.created.to_v0())
         if conv[0] == "ok":
             o = outcome(combine, [fl.created, conv[1]])
